@@ -156,7 +156,7 @@ func TestPoolLongRun(t *testing.T) {
 				stuck := false
 				select {
 				case <-done:
-				case <-time.After(10 * time.Second):
+				case <-time.After(40 * time.Second):
 					stuck = true // the goroutines are left where they are; the history so far and the fact go to the acceptor
 				}
 				close(stopFmt)
@@ -227,7 +227,7 @@ func TestPoolLongRun(t *testing.T) {
 		stuck := false
 		select {
 		case <-done:
-		case <-time.After(20 * time.Second):
+		case <-time.After(60 * time.Second):
 			stuck = true
 		}
 		close(stopFmt)
